@@ -80,7 +80,13 @@ pub fn serial_index(real: u32) -> u32 {
 }
 
 pub fn soa_of(serial: u32) -> Soa<StoredName> {
+    soa_variant(serial, 0)
+}
+
+/// variant 0: the zone's SOA; variant 1: same serial, MINIMUM differs
+pub fn soa_variant(serial: u32, variant: u32) -> Soa<StoredName> {
     let serial = real_serial(serial);
+    let minimum = 60 + variant;
     Soa::new(
         Name::from_str("ns.example.").unwrap(),
         Name::from_str("h.example.").unwrap(),
@@ -88,7 +94,7 @@ pub fn soa_of(serial: u32) -> Soa<StoredName> {
         Ttl::from_secs(600),
         Ttl::from_secs(300),
         Ttl::from_secs(86400),
-        Ttl::from_secs(60),
+        Ttl::from_secs(minimum),
     )
 }
 
@@ -116,7 +122,8 @@ pub fn owner_of(id: i64) -> StoredName {
 
 pub fn data_of(id: i64) -> StoredData {
     if is_soa_id(id) {
-        return ZoneRecordData::Soa(soa_of((id - SOA_BASE) as u32));
+        let k = (id - SOA_BASE) as u32;
+        return ZoneRecordData::Soa(soa_variant(k % 100, k / 100));
     }
     let v = (id - 1) % 2;
     if key_of(id).1 == 0 {
@@ -133,8 +140,10 @@ pub fn id_of(owner: &StoredName, data: &StoredData, max_n: i64) -> Option<i64> {
     match data {
         ZoneRecordData::Soa(soa) => {
             let idx = serial_index(soa.serial().into_int());
-            if owner == &apex() && soa == &soa_of(idx) && idx < 100_000 {
+            if owner == &apex() && idx < 100 && soa == &soa_variant(idx, 0) {
                 Some(SOA_BASE + idx as i64)
+            } else if owner == &apex() && idx < 100 && soa == &soa_variant(idx, 1) {
+                Some(SOA_BASE + 100 + idx as i64)
             } else {
                 None
             }
